@@ -10,10 +10,11 @@ pending = {}
 pp = os.path.join(V, "tools", "not_applicable.json")
 if os.path.exists(pp):
     pending = json.load(open(pp))
+ready = set(json.load(open(os.path.join(V, "tools", "ready.json"))))   # checks accepted by the maintainer
 checks, na = [], []
 for p in props:
     pid = p["id"]
-    if pid in REGISTRY:
+    if pid in REGISTRY and pid in ready:
         mod = importlib.import_module("checks." + REGISTRY[pid])
         m = mod.META[pid]
         checks.append({
